@@ -173,10 +173,10 @@ def skeletons(length, exch, max_orders=3):
     return out
 
 
-def h_session(ctx, n=3, kind='T1', side='long', exch='futures'):
+def h_session(ctx, n=3, kind='T1', side='long', exch='futures', sym=None):
     """lifecycle invariants on every order produced by a backtest run (shares C02's session harness)"""
     from . import c02
-    rows = S.minute_rows(ctx, n, sym_from=1)
+    rows = S.sparse_rows(ctx, n, list(sym)) if sym is not None else S.minute_rows(ctx, n, sym_from=1)
     T = c02._template(ctx, kind, side, exch)
     cfg = S.config_dict(exchange_type=exch, leverage=2, fee=0.001, balance=10000.0)
     rec = S.run_session(S.make_candles(rows), T, cfg)
@@ -200,11 +200,19 @@ def session_lifecycle(ctx, rec):
         nt = sum(1 for t in trades for x in t.orders if x is o)
         ctx.prove(nt == (1 if o.is_executed else 0), 'C05:executed-order-in-exactly-one-trade', {'order': info['seq']})
         ctx.event('session-order-checked')
-    # active registry at every strategy step (recorded in after())
-    for (t, hook, pl) in rec.hooks:
-        if hook != 'after':
+    # active registry at every strategy step (recorded in before() and after()): the orders reported as active are exactly
+    # the accepted orders that had no fill/cancel event yet
+    for hi, (t, hook, pl) in enumerate(rec.hooks):
+        if hook not in ('before', 'after'):
             continue
-        # orders accepted and not final at that time
+        final = set(id(pl2['order']) for (k2, t2, pl2) in rec.events[:pl['n_events']] if k2 in ('fill', 'cancel'))
+        not_final = [o for o in rec.orders if rec.order_info[id(o)].get('accepted') and rec.order_info[id(o)]['n_hooks'] <= hi
+                     and id(o) not in final]
+        active = pl['active']
+        same = len(active) == len(not_final) and all(any(a is o for a in active) for o in not_final)
+        ctx.prove(same, 'C05:active-registry-is-submitted-not-final', {'hook': hook, 'index': pl['index'],
+                                                                     'reported': [rec.order_info[id(a)]['seq'] for a in active],
+                                                                     'not_final': [rec.order_info[id(o)]['seq'] for o in not_final]})
         ctx.event('session-step-checked')
     ctx.event('session')
 
@@ -226,9 +234,9 @@ def _jobs(tier):
                 if not any(op[0] != 'S' for op in s):
                     continue
                 jobs.append(Job('%s_%s' % (exch[0], _name(s)), h_history, {'skeleton': s, 'exch': exch}))
-    for kw in ([dict(n=3, kind='T1', side='long', exch='futures')] if tier == 'quick' else
+    for kw in ([dict(n=3, kind='T1', side='long', exch='futures'), dict(n=3, kind='T3m', side='long', exch='futures', sym=[1])] if tier == 'quick' else
                [dict(n=3, kind=k, side=sd, exch='futures') for k in ('T1', 'T3', 'T8') for sd in ('long', 'short')] +
-               [dict(n=3, kind='T1', side='long', exch='spot')]):
+               [dict(n=3, kind='T1', side='long', exch='spot'), dict(n=3, kind='T3m', side='long', exch='futures', sym=[1]), dict(n=3, kind='T3m', side='short', exch='futures', sym=[1]), dict(n=4, kind='T3m', side='long', exch='futures', sym=[1, 2])]):
         jobs.append(Job('sess_' + '_'.join(str(v) for v in kw.values()), h_session, kw))
     return jobs
 
@@ -252,7 +260,8 @@ def setup(tier, seed):
         'stubs': list(jstubs.INSTALLED),
         'assumptions': ['floats as reals'],
         'must_reach': ['C05:repeated-call-has-no-effect', 'C05:final-order-never-changes', 'C05:executed-order-in-exactly-one-trade',
-                       'repeated-call-on-final-order', 'cancel-all', 'pending-market-flush', 'session-order-checked'],
+                       'repeated-call-on-final-order', 'cancel-all', 'pending-market-flush', 'session-order-checked', 'session-step-checked',
+                       'C05:active-registry-is-submitted-not-final'],
     }
 
 
